@@ -14,10 +14,16 @@ import (
 // ---------- loops ----------
 
 func (vc *VC) computeLoops(fn *ssa.Function) {
-	vc.loops = map[*ssa.BasicBlock]*loopInfo{}
-	if fn.Blocks == nil {
+	if vc.loops == nil {
+		vc.loops = map[*ssa.BasicBlock]*loopInfo{}
+	}
+	if vc.loopsDone == nil {
+		vc.loopsDone = map[*ssa.Function]bool{}
+	}
+	if vc.loopsDone[fn] || fn.Blocks == nil {
 		return
 	}
+	vc.loopsDone[fn] = true
 	var headers []*ssa.BasicBlock
 	for _, b := range fn.Blocks {
 		for _, s := range b.Succs {
@@ -76,8 +82,15 @@ func blockPos(b *ssa.BasicBlock) token.Pos {
 // ---------- instruction ordinals (stable obligation names) ----------
 
 func (vc *VC) computeOrdinals(fn *ssa.Function) {
-	vc.ordinals = map[ssa.Instruction]int{}
-	vc.callOrd = map[ssa.Instruction]int{}
+	if vc.ordinals == nil {
+		vc.ordinals = map[ssa.Instruction]int{}
+		vc.callOrd = map[ssa.Instruction]int{}
+		vc.ordDone = map[*ssa.Function]bool{}
+	}
+	if vc.ordDone[fn] {
+		return
+	}
+	vc.ordDone[fn] = true
 	type item struct {
 		in  ssa.Instruction
 		pos token.Pos
@@ -299,7 +312,11 @@ func (st *State) enter(b *ssa.BasicBlock, pred *ssa.BasicBlock) {
 		phiVals = append(phiVals, st.value(phi.Edges[idx]))
 	}
 	li := vc.loops[b]
-	if li != nil && st.fr.fn == vc.fn {
+	if li != nil {
+		lkey := ""
+		if st.fr.fn != vc.fn {
+			lkey = funcKey(st.fr.fn)
+		}
 		isBack := pred != nil && li.body[pred]
 		// bind phi values for invariant evaluation
 		for i := 0; i < nphi; i++ {
@@ -309,9 +326,13 @@ func (st *State) enter(b *ssa.BasicBlock, pred *ssa.BasicBlock) {
 				st.fr.names[phi.Comment] = phiVals[i]
 			}
 		}
-		invs := vc.loopClauses(li.ord, "loop-invariant")
+		invs := vc.loopClauses(lkey, li.ord, "loop-invariant")
 		if len(invs) == 0 {
-			fail("loop %d has no invariant", li.ord)
+			fail("loop %s#%d has no invariant", lkey, li.ord)
+		}
+		lname := fmt.Sprintf("loop%d", li.ord)
+		if lkey != "" {
+			lname = lkey + ".loop" + fmt.Sprint(li.ord)
 		}
 		kind := "inv-init"
 		if isBack {
@@ -328,17 +349,17 @@ func (st *State) enter(b *ssa.BasicBlock, pred *ssa.BasicBlock) {
 				if gi > 0 || len(splitConj(e)) > 1 {
 					lbl = fmt.Sprintf("%s.%d", lbl, gi+1)
 				}
-				st.oblige(kind, fmt.Sprintf("loop%d.%s", li.ord, lbl), ec.evalBool(g), g.String())
+				st.oblige(kind, lname+"."+lbl, ec.evalBool(g), g.String())
 			}
 		}
-		decs := vc.loopClauses(li.ord, "loop-decreases")
+		decs := vc.loopClauses(lkey, li.ord, "loop-decreases")
 		if isBack {
 			for _, c := range decs {
 				e, _ := c.expr()
 				ec := st.evalCtx()
 				cur := ec.evalTerm(e)
 				if prev, ok := st.fr.curLoopDec[li.ord]; ok {
-					st.oblige("dec", fmt.Sprintf("loop%d", li.ord), tAnd(tGe(prev, tInt(0)), tLt(cur, prev)), e.String())
+					st.oblige("dec", lname, tAnd(tGe(prev, tInt(0)), tLt(cur, prev)), e.String())
 				}
 			}
 			return
@@ -361,6 +382,15 @@ func (st *State) enter(b *ssa.BasicBlock, pred *ssa.BasicBlock) {
 			}
 		} else {
 			for _, k := range sortedKeys(li.mod) {
+				if strings.HasSuffix(k, "<") {
+					for k2 := range vc.keySort {
+						if strings.HasPrefix(k2, k) {
+							st.havocKey(k2)
+						}
+					}
+					st.nonnil["pendinghavocprefix:"+k] = true
+					continue
+				}
 				if _, ok := vc.keySort[k]; ok {
 					st.havocKey(k)
 				} else {
@@ -386,9 +416,6 @@ func (st *State) enter(b *ssa.BasicBlock, pred *ssa.BasicBlock) {
 		}
 		st.runFrom(b, nphi)
 		return
-	}
-	if li != nil && st.fr.fn != vc.fn {
-		fail("loop inside inlined function %s", funcKey(st.fr.fn))
 	}
 	for i := 0; i < nphi; i++ {
 		phi := b.Instrs[i].(*ssa.Phi)
@@ -420,13 +447,13 @@ func (vc *VC) havocLocalsInLoop(st *State, li *loopInfo) {
 	}
 }
 
-func (vc *VC) loopClauses(ord int, kw string) []*Clause {
+func (vc *VC) loopClauses(lkey string, ord int, kw string) []*Clause {
 	if vc.fc == nil {
 		return nil
 	}
 	var out []*Clause
 	for _, c := range vc.fc.Clauses {
-		if c.Kw == kw && c.Loop == ord && (c.Mode == "" || c.Mode == vc.mode) {
+		if c.Kw == kw && c.Loop == ord && c.LoopFn == lkey && (c.Mode == "" || c.Mode == vc.mode) {
 			out = append(out, c)
 		}
 	}
@@ -448,7 +475,14 @@ func splitConj(e *CExpr) []*CExpr {
 }
 
 func (st *State) evalCtx() *EvalCtx {
-	return &EvalCtx{st: st, names: st.fr.names, pkg: st.vc.fn.Pkg.Pkg, tparams: st.vc.tparamEnv(st.vc.fn)}
+	fn := st.fr.fn
+	var pkg *types.Package
+	if fn.Pkg != nil {
+		pkg = fn.Pkg.Pkg
+	} else if fn.Object() != nil {
+		pkg = fn.Object().Pkg()
+	}
+	return &EvalCtx{st: st, names: st.fr.names, pkg: pkg, tparams: st.vc.tparamEnv(fn)}
 }
 
 // runFrom executes instructions of block b starting at index idx.
@@ -493,7 +527,7 @@ func (st *State) runFrom(b *ssa.BasicBlock, idx int) {
 func (st *State) doPanic(in *ssa.Panic) {
 	vc := st.vc
 	// explicit panic: allowed only if the contract says so
-	if vc.fc != nil {
+	if vc.fc != nil && st.fr.fn == vc.fn {
 		for _, c := range vc.fc.clauses("ensures_on_panic") {
 			e, err := c.expr()
 			if err != nil {
@@ -672,6 +706,13 @@ func (st *State) step(in ssa.Instruction) {
 			st.bind(x, PtrV{Kind: "local", Local: lc, Elem: el, Typ: x.Type()})
 			return
 		}
+		if at, isArr := el.Underlying().(*types.Array); isArr {
+			// a Go array is modelled as a backing array ref (region "elem")
+			r := st.allocRef("newarr")
+			st.zeroArray(r, at.Elem())
+			st.bind(x, TV{r, x.Type()})
+			return
+		}
 		r := st.allocRef("new." + x.Comment)
 		p := st.asPtr(TV{r, x.Type()}, x.Type())
 		st.store(p, st.zeroVal(el))
@@ -705,14 +746,20 @@ func (st *State) step(in ssa.Instruction) {
 		st.bind(x, sv.F[x.Field])
 	case *ssa.IndexAddr:
 		xv := st.value(x.X)
+		if at := ptrToArray(x.X.Type()); at != nil {
+			idx := st.value(x.Index).(TV).T
+			st.oblige("bounds", fmt.Sprintf("index#%d", vc.ordinals[in]), tAnd(tLe(tInt(0), idx), tLt(idx, tInt(at.Len()))), "index in range")
+			st.bind(x, PtrV{Kind: "elem", Root: typeRepr(at.Elem()), Base: xv.(TV).T, Idx: idx, Elem: at.Elem(), Typ: x.Type()})
+			return
+		}
 		sv, ok := xv.(SliceV)
 		if !ok {
-			fail("IndexAddr on %T (arrays unsupported)", xv)
+			fail("IndexAddr on %T", xv)
 		}
 		idx := st.value(x.Index).(TV).T
 		st.oblige("bounds", fmt.Sprintf("index#%d", vc.ordinals[in]), tAnd(tLe(tInt(0), idx), tLt(idx, sv.Len)), "index in range")
-		el := sv.Typ.Underlying().(*types.Slice).Elem()
-		st.bind(x, PtrV{Kind: "elem", Root: typeRepr(el), Base: sv.Arr, Idx: st.define("ix", tAdd(sv.Off, idx)), Elem: el, Typ: x.Type()})
+		el := sliceElem(sv.Typ)
+		st.bind(x, PtrV{Kind: "elem", Root: typeRepr(el), Base: sv.Arr, Idx: offIdx(st, sv.Off, idx), Elem: el, Typ: x.Type()})
 	case *ssa.UnOp:
 		st.unop(x)
 	case *ssa.BinOp:
@@ -771,7 +818,7 @@ func (st *State) step(in ssa.Instruction) {
 		cp := st.value(x.Cap).(TV).T
 		st.oblige("bounds", fmt.Sprintf("makeslice#%d", vc.ordinals[in]), tAnd(tLe(tInt(0), ln), tLe(ln, cp)), "make: 0 <= len <= cap")
 		arr := st.allocRef("arr")
-		el := x.Type().Underlying().(*types.Slice).Elem()
+		el := sliceElem(x.Type())
 		st.zeroArray(arr, el)
 		st.bind(x, SliceV{arr, tInt(0), ln, cp, x.Type()})
 	case *ssa.MakeChan:
@@ -1037,6 +1084,9 @@ func cmpNum(a, b string) int {
 func (st *State) sliceOp(x *ssa.Slice) {
 	vc := st.vc
 	xv := st.value(x.X)
+	if at := ptrToArray(x.X.Type()); at != nil {
+		xv = SliceV{xv.(TV).T, tInt(0), tInt(at.Len()), tInt(at.Len()), types.NewSlice(at.Elem())}
+	}
 	sv, ok := xv.(SliceV)
 	if !ok {
 		fail("Slice of %T", xv)
@@ -1054,7 +1104,7 @@ func (st *State) sliceOp(x *ssa.Slice) {
 		mx = st.value(x.Max).(TV).T
 	}
 	st.oblige("bounds", fmt.Sprintf("slice#%d", vc.ordinals[x]), tAnd(tLe(tInt(0), lo), tLe(lo, hi), tLe(hi, mx), tLe(mx, sv.Cap)), "slice bounds in range")
-	nv := SliceV{Arr: sv.Arr, Off: st.define("off", tAdd(sv.Off, lo)), Len: st.define("len", tSub(hi, lo)), Cap: st.define("cap", tSub(mx, lo)), Typ: x.Type()}
+	nv := SliceV{Arr: sv.Arr, Off: offIdx(st, sv.Off, lo), Len: st.define("len", tSub(hi, lo)), Cap: st.define("cap", tSub(mx, lo)), Typ: x.Type()}
 	st.bind(x, nv)
 }
 
@@ -1279,4 +1329,23 @@ func (st *State) doGo(x *ssa.Go) {
 	cur := st.get(k)
 	st.set(k, tAdd(cur, tInt(1)))
 	vc.runGhost(st, "at go", name, vc.ordinals[x])
+}
+
+func offIdx(st *State, off, i Term) Term {
+	if off.S == "0" {
+		return i
+	}
+	if i.S == "0" {
+		return off
+	}
+	return st.define("ix", tAdd(off, i))
+}
+
+func ptrToArray(t types.Type) *types.Array {
+	if p, ok := types.Unalias(t).Underlying().(*types.Pointer); ok {
+		if a, ok := p.Elem().Underlying().(*types.Array); ok {
+			return a
+		}
+	}
+	return nil
 }
